@@ -152,6 +152,41 @@ func (m *Machine) ensureInit(pkg *ssa.Package) {
 	m.initBusy[pkg] = false
 }
 
+// initCall runs one call of a package initialiser; a failing call poisons only its own result.
+func (m *Machine) initCall(fr *frame, instr *ssa.Call) {
+	depth := m.depth
+	defer func() {
+		if r := recover(); r != nil {
+			m.depth = depth
+			msg := ""
+			switch r := r.(type) {
+			case pathEnd:
+				if r.kind != "unsupported" && r.kind != "engine" && r.kind != "unwind" {
+					panic(r)
+				}
+				msg = r.msg
+			case targetPanic:
+				msg = "panic: " + m.panicString(r.v)
+			default:
+				msg = fmt.Sprint(r)
+			}
+			m.W.notePoison(fr.fn.Pkg.Pkg.Path()+" "+instr.Call.Value.String(), msg)
+			var z Value
+			func() {
+				defer func() {
+					if recover() != nil {
+						z = Opaque{"poisoned init result"}
+					}
+				}()
+				z = m.zero(instr.Type())
+			}()
+			fr.env[instr] = z
+		}
+	}()
+	fn, args := m.prepareCall(fr, &instr.Call)
+	fr.env[instr] = m.call(fr, instr.Pos(), fn, args)
+}
+
 func deref(t types.Type) types.Type {
 	if p, ok := t.Underlying().(*types.Pointer); ok {
 		return p.Elem()
@@ -197,6 +232,10 @@ func (m *Machine) visitInstr(fr *frame, instr ssa.Instruction) continuation {
 	case *ssa.BinOp:
 		fr.env[instr] = m.binop(instr.Op, instr.X.Type(), fr.get(instr.X), fr.get(instr.Y), instr.Y.Type())
 	case *ssa.Call:
+		if fr.fn.Synthetic == "package initializer" {
+			m.initCall(fr, instr)
+			break
+		}
 		fn, args := m.prepareCall(fr, &instr.Call)
 		fr.env[instr] = m.call(fr, instr.Pos(), fn, args)
 	case *ssa.ChangeInterface:
